@@ -155,18 +155,24 @@ def run(ctx):
         ctx.drift.append("%d of %d schedules had Keep writes the code did not issue as the model predicted" % (nun, len(unapplied)))
     if not stuck and unapplied and nun > len(unapplied) // 2:
         raise vlib.InfraError("more than half of the schedules could not be applied")
-    # race reports -> events the contract has no action for (only if both accesses are in anchored code)
+    # race-detector reports: race freedom is not in the statement -> DRIFT (with the report), never a verdict
     reps = race_reports(out1) + race_reports(out2)
-    infra = [r for r in reps if not r["in_code"]]
-    if infra:
-        ctx.drift.append("%d race report(s) involving the harness, not the anchored code (first: %s)" % (len(infra), infra[0]["tops"]))
-    for rp in reps:
-        if rp["in_code"]:
-            for t in traces:
-                if t[0].get("scn") == rp["scn"]:
-                    t.append({"ev": "race", "tops": rp["tops"], "text": rp["text"][:1500]})
-                    break
-    ctx.extra["race_reports"] = {"in_anchored_code": len(reps) - len(infra), "harness": len(infra)}
+    code = [r for r in reps if r["in_code"]]
+    if code:
+        ctx.drift.append("%d race-detector report(s) with both accesses in the anchored files (first: scenario %s, %s)"
+                         % (len(code), code[0]["scn"], code[0]["tops"]))
+    ctx.extra["race_reports"] = {"in_anchored_code": len(code), "harness": len(reps) - len(code)}
+    # C09's obligations on a saved manifest (published grammar, locator provenance) are not C13's: drift
+    bad = [(t[0].get("scn"), e["id"]) for t in traces for e in t
+           if e["ev"] == "call" and e.get("op") == "marshal" and e.get("ok")
+           and (not e["m"]["gok"] or any(not ((b["orig"] or b["put"]) and b["known"] and b["md5"] and b["sz"] == len(b["d"]))
+                                         for st in e["m"]["streams"] for b in st["blocks"]))]
+    if bad:
+        ctx.drift.append("%d saved manifest(s) fail C09's grammar / locator obligations (first: scenario %s call %s)"
+                         % (len(bad), bad[0][0], bad[0][1]))
+    inapp = [t[0].get("scn") for t in traces if t[0].get("inapplicable")]
+    if inapp:
+        ctx.drift.append("%d directory schedule(s) could not be replayed: the other call blocked on the filesystem-wide mutex" % len(inapp))
     events = [e for t in traces for e in t]
     ctx.evaluations = len(traces)
     ctx.extra["events_judged"] = len(events)
